@@ -51,7 +51,19 @@ def requests():
         rs.append([{"u": "insertdata", "quads": [Q(T[3], g), Q(T[0], g)]}])
         rs.append([{"u": "deletedata", "quads": [Q(T[0], g), Q(T[3], g)]}])
     rs.append([{"u": "insertdata", "quads": [Q(T[3], ""), Q(T[3], "g1"), Q((I("n9"), I("p"), BN("x")), ""), Q((BN("x"), I("q"), N(9)), "g1")]}])
+    # the same graph named by two GRAPH blocks of one request (and the default part written twice)
+    T9 = [I("n9"), I("p"), N(9)]
+    rs.append([{"u": "insertdata", "split": True, "quads": [Q(T[3], "g1"), Q(T[0], "g2"), Q(T9, "g1")]}])
+    rs.append([{"u": "insertdata", "split": True, "quads": [Q(T[3], ""), Q(T[0], "g1"), Q(T9, "")]}])
+    rs.append([{"u": "deletedata", "split": True, "quads": [Q(T[0], "g1"), Q(T[1], "g2"), Q(T[1], "g1"), Q(T[2], "g1")]}])
+    rs.append([dict(mod(grp(SPO), dele=[Q((V("s"), I("p"), V("o")), "g1"), Q((V("s"), I("p"), V("o")), "g2"), Q((V("s"), I("q"), V("o")), "g1")],
+                        ins=[Q((V("s"), I("r"), V("o")), "g1"), Q((V("s"), I("r"), V("o")), ""), Q((V("o"), I("r"), V("s")), "g1")]), split=True)])
     # delete where
+    # ... whose pattern has no variable: it deletes only if ALL of it is there
+    rs.append([{"u": "deletewhere", "quads": [Q(T[0]), Q(T[3])]}])
+    rs.append([{"u": "deletewhere", "quads": [Q(T[0]), Q(T[1], "g1")]}])
+    rs.append([{"u": "deletewhere", "quads": [Q(T[0], "g1"), Q(T[1], "g1"), Q(T[2], "g2")]}])
+    rs.append([{"u": "deletewhere", "quads": [Q(T[0])]}])
     rs.append([{"u": "deletewhere", "quads": [Q((V("s"), I("p"), V("o")))]}])
     rs.append([{"u": "deletewhere", "quads": [Q((V("s"), I("p"), V("o")), "g1")]}])
     rs.append([{"u": "deletewhere", "quads": [Q((V("s"), I("p"), V("o")), V("g"))]}])
